@@ -28,7 +28,7 @@ for a in sys.argv[1:]:
     if a.startswith("REPL="):
         _, p, f = a.split("=", 2)
         ov[f"{R}/{p}"] = f
-out = f"{V}/.work/overlay.json"
+out = os.environ.get("VERIF_OVERLAY_OUT", f"{V}/.work/overlay.json")
 os.makedirs(os.path.dirname(out), exist_ok=True)
 tmp = out + ".%d" % os.getpid()
 json.dump({"Replace": ov}, open(tmp, "w"), indent=1)
